@@ -566,6 +566,9 @@ impl Shadow {
                 // outlives it") when the Snapshot was read from a cell inside this critical section:
                 // the object was linked then
                 let props = match h.src {
+                    // (cascade: the object was still held by a link of its parent when the
+                    // upgrade inside this critical section succeeded, and that link went during it)
+                    Src::WsnapUpgrade if depth > 0 => "C02,C05,C01,C13",
                     Src::WsnapUpgrade => "C02,C05,C01",
                     Src::Load | Src::CasCurrent | Src::CasTagResult => "C02,C01,C13",
                     _ => "C02,C01",
